@@ -46,3 +46,10 @@ func init() {
 		New: "\t\t\t\tdefault:\n\t\t\t\t\tif !fd.HasPresence() && p.val.Equal(fd.Default()) {\n\t\t\t\t\t\tbreak\n\t\t\t\t\t}\n\t\t\t\t\tcur.Set(fd, p.val)\n",
 		Expect: "set-on-every-path", Why: "a zero-valued path capture does not overwrite the query/body value"})
 }
+
+func init() {
+	control(&Control{ID: "fdlocal-direct", Rule: "FD-LOCAL", File: "larking/rules.go",
+		Old: "\t\t\tfd = fieldOf(cur, fd)\n", New: "", Expect: "(params).set/", Why: "restore D39: stored descriptors applied directly to the picked handler's message"})
+	control(&Control{ID: "slicecap-var-bound", Rule: "SLICE-CAP", File: "larking/codec.go",
+		Old: "\t\tif cap(b) < n {\n\t\t\tdst := make([]byte, len(b), growcap(cap(b), n))", New: "\t\tif cap(b) < n-1 {\n\t\t\tdst := make([]byte, len(b), growcap(cap(b), n-1))", Expect: "ReadNext/extend", Why: "capacity established for another bound than the one sliced to"})
+}
